@@ -7,7 +7,7 @@
 
 static struct {
   int calls;            /* sink calls so far (saturating)                      */
-  int last_rd_calls;    /* value of g.rd_calls when the last chunk was delivered */
+  int last_rd_calls;    /* value of g.rl.rd_calls when the last chunk was delivered */
   bool stopped;         /* a sink returned non-zero                            */
   int stop_val;
   bool closed_out, closed_err; /* the size-zero call for that stream happened  */
@@ -16,12 +16,12 @@ static struct {
 } verif_mon;
 
 #define VERIF_DRAIN_INV                                                        \
-  (verif_mon.calls >= 2 && !verif_mon.stopped && g.rd_calls == verif_mon.last_rd_calls && \
+  (verif_mon.calls >= 2 && !verif_mon.stopped && g.rl.rd_calls == verif_mon.last_rd_calls && \
    INV(process) && process->status != ST_IN_CHILD &&                          \
    (process->pipe.out == verif_mon.fd_out || process->pipe.out == -1) &&       \
    (process->pipe.err == verif_mon.fd_err || process->pipe.err == -1) &&       \
    (!verif_mon.closed_out || process->pipe.out == -1) &&                       \
-   (!verif_mon.closed_err || process->pipe.err == -1) && g.rd_calls >= 0 && g.rd_calls < 1000)
+   (!verif_mon.closed_err || process->pipe.err == -1) && g.rl.rd_calls >= 0 && g.rl.rd_calls < 1000)
 
 #include "drain.c"
 
@@ -35,20 +35,20 @@ static int mon_call(int which, REPROC_STREAM stream, const uint8_t *buffer, size
     V_ASSERT("C16/drain.second_call_is_err_sink_empty_with_input_tag",
              which == 1 && stream == REPROC_STREAM_IN && size == 0 && context == verif_mon.ctx_err && buffer != NULL);
   } else {
-    bool from_out = g.rd_fd == verif_mon.fd_out;
+    bool from_out = g.rl.rd_fd == verif_mon.fd_out;
     V_ASSERT("C16/drain.chunk_follows_exactly_one_undelivered_read",
-             g.rd_calls == verif_mon.last_rd_calls + 1 && (g.rd_fd == verif_mon.fd_out || g.rd_fd == verif_mon.fd_err) && g.rd_fd != -1);
+             g.rl.rd_calls == verif_mon.last_rd_calls + 1 && (g.rl.rd_fd == verif_mon.fd_out || g.rl.rd_fd == verif_mon.fd_err) && g.rl.rd_fd != -1);
     V_ASSERT("C16/drain.chunk_goes_to_the_sink_of_its_stream_with_its_tag",
              which == (from_out ? 0 : 1) && stream == (from_out ? REPROC_STREAM_OUT : REPROC_STREAM_ERR) &&
                  context == (from_out ? verif_mon.ctx_out : verif_mon.ctx_err));
     V_ASSERT("C16/drain.chunk_is_what_was_read",
-             buffer == (const uint8_t *) g.rd_buf && g.rd_ret >= 0 && size == (size_t) g.rd_ret);
+             buffer == (const uint8_t *) g.rl.rd_buf && g.rl.rd_ret >= 0 && size == (size_t) g.rl.rd_ret);
     if (size == 0) {
       V_ASSERT("C16/drain.closed_stream_reported_once_with_size_zero",
                !(from_out ? verif_mon.closed_out : verif_mon.closed_err));
       if (from_out) verif_mon.closed_out = true; else verif_mon.closed_err = true;
     }
-    verif_mon.last_rd_calls = g.rd_calls;
+    verif_mon.last_rd_calls = g.rl.rd_calls;
   }
   if (verif_mon.calls < 1000) verif_mon.calls++;
   int rv = nondet_int(); /* a sink may fail at any call */
@@ -80,7 +80,7 @@ void harness(void)
   verif_mon.calls = 0;
   verif_mon.stopped = false;
   verif_mon.closed_out = verif_mon.closed_err = false;
-  verif_mon.last_rd_calls = g.rd_calls;
+  verif_mon.last_rd_calls = g.rl.rd_calls;
   verif_mon.ctx_out = &ca;
   verif_mon.ctx_err = &cb;
   if (process != NULL) {
@@ -92,7 +92,7 @@ void harness(void)
 
   int verif_rv = reproc_drain(process, out, err);
 
-  V_ASSERT("C14+C16/drain.misuse_is_einval", IMPLIES(misuse, verif_rv == -EINVAL && verif_mon.calls == 0 && g.os_calls == 0));
+  V_ASSERT("C14+C16/drain.misuse_is_einval", IMPLIES(misuse, verif_rv == -EINVAL && verif_mon.calls == 0 && g.e.os_calls == 0));
   if (!misuse) {
     V_ASSERT("C16/drain.non_zero_sink_result_is_returned_at_once", IMPLIES(verif_mon.stopped, verif_rv == verif_mon.stop_val));
     V_ASSERT("C16/drain.zero_only_when_both_output_streams_are_closed",
@@ -100,7 +100,7 @@ void harness(void)
     V_ASSERT("C16/drain.otherwise_a_negative_error", IMPLIES(verif_rv != 0 && !verif_mon.stopped, verif_rv < 0));
     V_ASSERT("C16/drain.every_chunk_read_was_delivered",
              IMPLIES(!verif_mon.stopped || verif_mon.calls > 2,
-                     g.rd_calls == verif_mon.last_rd_calls || (g.rd_calls == verif_mon.last_rd_calls + 1 && g.rd_ret < 0)));
+                     g.rl.rd_calls == verif_mon.last_rd_calls || (g.rl.rd_calls == verif_mon.last_rd_calls + 1 && g.rl.rd_ret < 0)));
     V_ASSERT("C14/drain.invariant_kept", INV(process));
     if (verif_rv == 0) V_CANARY("drain.both_closed_reachable");
     if (verif_rv == -ETIMEDOUT) V_CANARY("drain.timeout_reachable");
